@@ -1,4 +1,8 @@
 """C03 - store stream (Store.tla, graph alphabet)."""
+import json
+
+import vlib
+from props.common import harness
 from props.storestream import run_stream
 
 RULES = {
@@ -19,12 +23,52 @@ RULES = {
 }
 
 
+def repair_phase(ctx):
+    """Verification and repair (Store!Mismatches / Repaired / MaintPass, MC_StoreRepair.tla)."""
+    shapes = ("chain", "diamond") if ctx.tier == "quick" else ("chain", "diamond", "mirror", "moved")
+    detail, cases = [], []
+    states = 0
+    for sh in shapes:
+        r = vlib.run_tlc(ctx.sc, "MC_StoreRepair", "MC_StoreRepair_%s.cfg" % sh, timeout=900)
+        states += r.distinct
+        detail.append({"cfg": "MC_StoreRepair_%s.cfg" % sh, "distinct": r.distinct})
+        g = vlib.run_tlc(ctx.sc, "MC_StoreRepair", "Gen_StoreRepair_%s.cfg" % sh, collect_json=True, workers=1, timeout=900)
+        cases += g.lines
+    r = vlib.run_tlc(ctx.sc, "MC_StoreRepair", "MC_StoreRepair_singlepass.cfg", allow_violation=True, timeout=900)
+    if not r.violation or "SinglePassRepairs" not in r.violation:
+        raise vlib.MachineryError("one as-coded maintenance pass no longer violates SinglePassRepairs in MC_StoreRepair.tla")
+    detail.append({"cfg": "MC_StoreRepair_singlepass.cfg", "must_violate": "SinglePassRepairs", "violated": True})
+    p = ctx.sc.path("repair.jsonl")
+    with open(p, "w") as f:
+        for c in cases:
+            f.write(json.dumps(c) + "\n")
+    vlib.log("role2 MC_StoreRepair: %d corruptions of %s" % (len(cases), ", ".join(shapes)))
+    vh = vlib.build_vh()
+    res = harness(ctx, vh, ["repair", "--cases", p, "--seed", str(ctx.seed)], timeout=3000)
+    return states, detail, res
+
+
 def run(ctx):
     cov, failures = run_stream(ctx, "C03")
+    rstates, rdetail, rres = repair_phase(ctx)
+    failures += [f for f in rres["failures"] if f["finding"].startswith("C03:")]
+    cov["role1"] = cov.get("role1", []) + rdetail
+    cov["evaluations"] += rres["evaluations"]
+    cov["traces_validated_against_impl"] += rres["traces"]
+    cov.setdefault("extra", {})
+    if isinstance(cov["extra"], dict):
+        cov["extra"]["repair"] = rres.get("extra")
+    cov["samples"] = (cov.get("samples") or []) + rres["samples"][:2]
     cov["rule"] = RULES["C03"] + (" Behaviours: all sequences of 2 requests over root + 2 nodes, every request after a diamond / "
                                  "chain / mirror-with-deleted-edge start over root + 3 nodes (thorough: every 2 requests), and "
                                  "TLC-simulated sequences of 7 requests. evaluations = requests replayed; distinct_nontrivial = "
-                                 "distinct (request, predicted reply) pairs.")
+                                 "distinct (request, predicted reply) pairs. Verification and repair: TLC checks on every "
+                                 "corruption of the start shapes (each subset of the edges gets a wrong stored hash) that a verification "
+                                 "reports it, that the repaired store is HashConsistent with unchanged content, that the as-coded "
+                                 "maintenance pass converges within edges + 1 passes and that one pass is not enough (must fail); on the "
+                                 "real instance the same corruptions are written into the store file, admin.storeVerify must report exactly "
+                                 "the predicted nodes, and after at most edges + 1 admin.storeMaint requests a verification finds nothing, "
+                                 "all hashes equal the independent recomputation and no point has changed.")
     return {"coverage": cov, "failures": failures,
             "assumptions": ["CRC collisions abstracted away in the model (free XOR algebra); check (i) is concrete",
                             "writes with parent 'root' for non-root nodes (root replacement) are outside the alphabet"]}
